@@ -15,7 +15,7 @@
 (* input universe one state per (pattern, permutation); INIT InitHist /    *)
 (* NEXT NextHist explores every search history over a smaller universe.    *)
 (***************************************************************************)
-EXTENDS Pattern, Json
+EXTENDS SearchTable, Json
 
 CONSTANTS MinPatt, MaxPatt, MinPerm, MaxPerm, Shard, NShards, Colours
 
@@ -27,19 +27,6 @@ vars == <<patt, bound, searched, perm, reply, cols, its>>
 \* for a coloured one.
 \* bound: has this object built its table;  searched: has any search been made
 \* (perm/reply are <<>> until then).  memo is derived: the table once bound.
-
-\* The table of the search algorithm (Permuta: _pattern_details): for position k the
-\* index of the left floor (largest smaller value to the left) and left ceiling, -1 if
-\* absent, and the two value offsets used as bounds.  0-based indices.
-PLeftFloor(p, k) == LET S == {j \in 1..(k - 1) : p[j] < p[k]}
-                    IN IF S = {} THEN 0 ELSE CHOOSE j \in S : \A i \in S : p[i] <= p[j]
-PLeftCeil(p, k) == LET S == {j \in 1..(k - 1) : p[j] > p[k]}
-                   IN IF S = {} THEN 0 ELSE CHOOSE j \in S : \A i \in S : p[i] >= p[j]
-PDetails(p) == [k \in DOMAIN p |->
-                 LET f == PLeftFloor(p, k)  c == PLeftCeil(p, k)
-                 IN << f - 1, c - 1,
-                       IF f = 0 THEN p[k] ELSE p[k] - p[f],
-                       IF c = 0 THEN Len(p) - p[k] ELSE p[c] - p[k] >>]
 
 Patts == PPermsBetween(MinPatt, MaxPatt)
 \* deterministic sharding of the permutation universe over several TLC processes
